@@ -383,6 +383,9 @@ def r13_4(ck):
              and ('truthy', 'self._ended') in cfg.guards(cfg.node(r))]
     ok = bool(early) and all(cfg.dominates(_test_of(cfg, r), sn)
                              for r in early)
+    # ... or everything end() does sits under `if not self._ended:`
+    if not ok:
+        ok = ('falsy', 'self._ended') in cfg.guards(sn)
     ck.require(ok, 'R13.4', f, early[0] if early else f.node.name,
                'end() returns early when the process was already ended',
                'end() is no longer idempotent: a second end() (e.g. from '
@@ -567,7 +570,18 @@ def r13_5(ck):
                        'empty-path branch, which ends nothing, is unused)',
                        '_delete_path may be called with an empty path, '
                        'which clears the node without ending workers', c)
-    r = ck.fn('Store.recursive_end_process', 'core.store')
+    r = ck.fn_opt('Store.recursive_end_process', 'core.store')
+    if r is None:
+        # the store-side helper is gone: what matters is decided above
+        # (every `del X.inner[k]` preceded by ending the workers below it)
+        dp = ck.fn('Store._delete_path', 'core.store')
+        ck.fail('R13.5', dp, dp.node.name,
+                'Store.recursive_end_process no longer exists: deleting a '
+                'subtree in the store does not end the parallel processes '
+                'below it any more (ending them elsewhere, from the paths '
+                'reported to the engine, also ends the workers of a subtree '
+                'that was only moved)')
+        return
     cr = cfg_of(r.node)
     ok_end = any(any(a[0] == 'isinstance' and 'ParallelProcess' in a[2]
                      for a in cr.guards(cr.node(c)))
